@@ -245,5 +245,14 @@ func Destroy() {
 	}
 	global.loggers = nil
 	global.appenders = nil
+
+	// Unbind tags and named loggers from the stopped loggers, so that
+	// logging falls back to the default logger until the next Refresh.
+	for _, obj := range tagRegistry {
+		obj.logger = nil
+	}
+	for _, l := range loggerMap {
+		l.logger = nil
+	}
 	global.init = false
 }
